@@ -605,6 +605,7 @@ func rangesRouterMap(rm *routerModel, f *ssa.Function) bool {
 func c07E5(l *core.Ledger, r *rt) {
 	if fn := r.mustFn("C07-E5", "WrapMessage"); fn != nil {
 		md, errp := fn.Params[0], fn.Params[2]
+		fresh := wrapFreshMetadata(fn)
 		// every path to return stores md.Status
 		isStatusStore := func(n sx.Node) bool {
 			st, ok := n.Instr().(*ssa.Store)
@@ -612,17 +613,62 @@ func c07E5(l *core.Ledger, r *rt) {
 				return false
 			}
 			base, ok := fieldAddrOf(st.Addr, "Status")
+			if ok && fresh != nil && base == ssa.Value(fresh) {
+				return true // the reply's own metadata literal
+			}
 			return ok && sx.All(sx.Origins(base), sx.IsParam(md))
 		}
 		_, must := sx.MustPassThrough(sx.Entry(fn), isStatusStore, sx.IsReturn)
 		// value: Proto() of a status from FromError(err) or New(Unknown, err.Error())
 		okVal := false
+		valWhy := ""
+		var helperOrigins []sx.Origin
 		sx.AllInstrs(fn, func(n sx.Node, in ssa.Instruction) {
 			if !isStatusStore(n) {
 				return
 			}
 			st := in.(*ssa.Store)
-			okVal = sx.All(sx.Origins(st.Val), func(o sx.Origin) bool {
+			valWhy = " (stored: " + sx.OriginsString(sx.Origins(st.Val)) + ")"
+			nonNil := 0
+			for _, o := range sx.Origins(st.Val) {
+				if !sx.IsNilConst(o) {
+					nonNil++
+				}
+			}
+			val := st.Val
+			// a helper of the package that is handed the error and returns the status: judged by its returns
+			if hc, isCall := val.(*ssa.Call); isCall && len(hc.Call.Args) == 1 && hc.Call.Args[0] == ssa.Value(errp) {
+				if hf := hc.Call.StaticCallee(); hf != nil && inRepo(hf) && len(hf.Params) == 1 && len(hf.Blocks) > 0 {
+					var rets []ssa.Value
+					sx.AllInstrs(hf, func(_ sx.Node, in2 ssa.Instruction) {
+						if r2, isRet := in2.(*ssa.Return); isRet && len(r2.Results) == 1 {
+							rets = append(rets, r2.Results[0])
+						}
+					})
+					if len(rets) > 0 {
+						errp = hf.Params[0]
+						nonNil = 0
+						var os []sx.Origin
+						for _, rv := range rets {
+							os = append(os, sx.Origins(rv)...)
+						}
+						for _, o := range os {
+							if !sx.IsNilConst(o) {
+								nonNil++
+							}
+						}
+						helperOrigins = os
+					}
+				}
+			}
+			origins := sx.Origins(val)
+			if helperOrigins != nil {
+				origins = helperOrigins
+			}
+			okVal = nonNil > 0 && sx.All(origins, func(o sx.Origin) bool {
+				if sx.IsNilConst(o) {
+					return true // no status for a nil error: what FromError(nil).Proto() yields as well
+				}
 				c, ok := o.V.(*ssa.Call)
 				if o.Kind != sx.KCall || !ok || c.Call.StaticCallee() == nil || c.Call.StaticCallee().Name() != "Proto" {
 					return false
@@ -660,7 +706,7 @@ func c07E5(l *core.Ledger, r *rt) {
 				})
 			})
 		})
-		l.Check(must && okVal, "C07-E5", "gorums.WrapMessage", fn.Pos(), "md.Status = status of the handler's error on every path", fmt.Sprintf("handler errors do not travel: Status stored on every path: %v; value is FromError(err) / New(Unknown, err.Error()): %v", must, okVal))
+		l.Check(must && okVal, "C07-E5", "gorums.WrapMessage", fn.Pos(), "md.Status = status of the handler's error on every path", fmt.Sprintf("handler errors do not travel: Status stored on every path: %v; value is FromError(err) / New(Unknown, err.Error()): %v%s", must, okVal, valWhy))
 	}
 	// the status travels in a reply without payload: a handler of a server-stream method reports its
 	// error with WrapMessage(md, nil, err) - the encoder must not refuse a Message whose payload is nil
